@@ -122,6 +122,14 @@ class Run:
         elif kind == "C":
             self.tasks[int(ev[2:])].cancel()
             loop.settle()
+        elif kind == "Z":
+            # the host asks for a reset (Gateway.reset does this): an RST frame goes out; only the RSTACK that answers it
+            # ends a failed state
+            try:
+                self.p.send_reset()
+            except Exception as e:  # noqa: BLE001
+                self.log.append(f"!{type(e).__name__}")
+            loop.settle()
         entries = self.log[start:]
         self.events.append((ev, entries, self.state()))
 
@@ -191,6 +199,9 @@ def script(rng, tx0, rx0, nq, word):
             elif ch == "k":
                 r.do("F=K:2:11")
                 rxn = 0
+            elif ch == "z":
+                r.do("Z")
+                new_send()
             elif ch == "r":
                 if r.loop.next_timer() is None:
                     continue
@@ -388,6 +399,10 @@ def cases(ctx):
             if "o" in w:
                 out.append((rng.randrange(8), rng.randrange(8), 0, "".join(w)))
                 out.append((rng.randrange(8), rng.randrange(8), 1, "".join(w) + "a"))
+    # the host asks for a reset after a failure (and at other moments), then sends: nothing but the RSTACK re-opens the link
+    for pre in ("e", "ttttt", "nnnnn", "a", "", "ea", "t"):
+        for post in ("", "a", "k", "ka", "t", "e"):
+            out.append((rng.randrange(8), rng.randrange(8), rng.randrange(2), pre + "z" + post))
     pairs = ["b" + x + y for x in "asnekdo" for y in "asnekdo"]
     toks = list(core) + pairs
     for n in range(1, 3):
@@ -396,7 +411,7 @@ def cases(ctx):
                 out.append((0, 0, 0, "".join(w)))
                 out.append((0, 0, 1, "".join(w) + "tat"))
     for _ in range(ctx.n(1500, 20000)):
-        w = "".join(rng.choice(["a", "a", "a", "s", "n", "n", "t", "t", "e", "k", "r", "d", "d", "w", "w", "c", "o", "o", rng.choice(pairs)]) for _ in range(rng.randint(3, 14)))
+        w = "".join(rng.choice(["a", "a", "a", "s", "n", "n", "t", "t", "e", "k", "r", "d", "d", "w", "w", "c", "o", "o", "z", rng.choice(pairs)]) for _ in range(rng.randint(3, 14)))
         out.append((rng.randrange(8), rng.randrange(8), rng.randint(0, 2), w))
     for _ in range(ctx.n(20, 200)):  # long: frame numbers wrap
         w = "".join(rng.choice("aaaaaadwn") for _ in range(60))
@@ -418,7 +433,7 @@ def run(ctx):
             runs.append(script(ctx.rng, tx0, rx0, nq, w))
     finally:
         pass
-    lines = [f"c05 run {tx0} {rx0} " + " ".join(ev for ev, _, _ in r.events) for (tx0, rx0, nq, w), r in zip(cs, runs)]
+    lines = [f"c05 run {tx0} {rx0} " + " ".join(ev for ev, _, _ in r.events if ev != "Z") for (tx0, rx0, nq, w), r in zip(cs, runs)]
     model = ctx.driver(lines)
     nontriv = 0
     for i, ((tx0, rx0, nq, w), r) in enumerate(zip(cs, runs)):
@@ -435,7 +450,7 @@ def run(ctx):
         bad = oracle(r, consts)
         if bad:
             ctx.violation(bad, {"kind": "sender"}, {"tx": tx0, "rx": rx0, "events": [ev for ev, _, _ in r.events], "impl": [[en, st] for _, en, st in r.events]})
-        if model is not None:
+        if model is not None and not any(ev == "Z" for ev, _, _ in r.events):
             ms = model[i].split("|") if r.events else []
             for k, ((ev, en, st), m) in enumerate(zip(r.events, ms)):
                 mo, mst = m.split(";")
@@ -456,7 +471,7 @@ def run(ctx):
     ctx.cov["distinct_nontrivial"] = nontriv
     ctx.cov["rule"] = (f"every reaction word of length 1..{ctx.n(4, 6)} over {{covering ACK, stale ACK, ACK/NAK/DATA with an acknowledgement number covering nothing outstanding (length 1..3), NAK, ACK timeout, ERROR, RSTACK, ACK/NAK racing the timeout in one loop iteration}} for a single send (exhaustive), "
                        "random words of length 3..14 adding piggy-backed acks on DATA, clock advances, caller cancellation, 0..2 queued sends and all 64 start counters; 60-reaction runs wrapping the frame number; "
-                       "non-trivial = the run contains at least one retransmission")
+                       "the host's own reset request (send_reset) after a failure and at other moments, followed by a new send; non-trivial = the run contains at least one retransmission")
     ctx.exhaustive = True
 
 
